@@ -42,7 +42,7 @@ func (x *Exec) opStallTeardown(st *Step) { //nolint:cyclop
 	kind := st.Opt
 	ui := x.userIdx(c, st)
 	nonceMinutes := time.Now().Unix()/60 - c.NonceAt.Unix()/60
-	if kind == "refresh0" && (a.User != Users[ui].Name || nonceMinutes >= 59) {
+	if kind == "refresh0" && (!x.owns(a, ui) || nonceMinutes >= 59) {
 		kind = "expire"
 	}
 	if kind == "chan-expire" && (ch == nil || !ch.Deadline.Add(2*time.Second).Before(a.Deadline)) {
